@@ -221,7 +221,10 @@ def _check_first_bin(r, sub, a, fin, bins, new_values, out):
     exp = np.full(a.shape, np.nan, dtype="float32")
     exp[idx >= 0] = nv32[idx[idx >= 0]]
     of = np.asarray(out)
-    same = (of == exp) | (np.isnan(of) & np.isnan(exp))
+    # "the new value" of the bin: exactly as listed, or rounded to the result's single precision - the statement does not fix the result dtype
+    exp64 = np.full(a.shape, np.nan, dtype="float64")
+    exp64[idx >= 0] = np.array(new_values, dtype="float64")[idx[idx >= 0]]
+    same = (of == exp) | (of.astype("float64") == exp64) | (np.isnan(of) & np.isnan(exp))
     bad = fin & ~same
     if bad.any():
         y, x = np.argwhere(bad)[0]
